@@ -23,6 +23,7 @@ Key design decisions (LOCKED):
 """
 
 import hashlib
+import os
 import re
 from dataclasses import dataclass
 from datetime import UTC, datetime
@@ -475,7 +476,10 @@ def validate_source_uri(source_uri: str, base_path: Path) -> Path:
     # resolve() follows symlinks and returns absolute path
     try:
         resolved = candidate.resolve()
-    except (OSError, ValueError) as e:
+        # A symlink loop makes resolve() stop early: the components after the loop are only
+        # normalised lexically and may still contain links. Resolve the result again.
+        resolved = Path(os.path.realpath(resolved))
+    except (OSError, ValueError, RuntimeError) as e:
         raise SourceUriSecurityError(
             source_uri,
             f"failed to resolve path: {e}",
